@@ -273,6 +273,43 @@ func (a *errAnalyzer) analyse(s *errSite) errVerdict {
 			}
 		}
 	}
+	// (value, found bool, err error) protocol: when the callee reports "not found" the error is nil by contract
+	// (py.TypeCall0/1/2, Type.CallMethod); the error only matters on the branch where the flag is true
+	okVals := map[ssa.Value]bool{}
+	if ex, ok := s.errVal.(*ssa.Extract); ok {
+		if tup, ok := ex.Tuple.Type().(*types.Tuple); ok && tup.Len() == 3 {
+			if bt, ok := tup.At(1).Type().Underlying().(*types.Basic); ok && bt.Kind() == types.Bool {
+				if refs := ex.Tuple.Referrers(); refs != nil {
+					for _, ref := range *refs {
+						if e2, ok := ref.(*ssa.Extract); ok && e2.Index == 1 {
+							okVals[e2] = true
+						}
+					}
+				}
+			}
+		}
+	}
+	// a function that cannot return an error (sort.Interface's Less/Swap) and records the error in an error-typed
+	// field of its adaptor object ("first error wins") delivers it through that object
+	hasErrResult := false
+	if res := fn.Signature.Results(); res != nil {
+		for i := 0; i < res.Len(); i++ {
+			if isErrorType(res.At(i).Type()) {
+				hasErrResult = true
+			}
+		}
+	}
+	if !hasErrResult {
+		for _, b := range fn.Blocks {
+			for _, in := range b.Instrs {
+				if st, ok := in.(*ssa.Store); ok && carriers[st.Val] {
+					if fa, ok := st.Addr.(*ssa.FieldAddr); ok && isErrorType(fa.Type().(*types.Pointer).Elem()) {
+						return errVerdict{kind: "propagated", pos: s.pos, detail: "recorded in an error field of the adaptor object (the function itself cannot return an error); delivered by the owner of that object"}
+					}
+				}
+			}
+		}
+	}
 	var v errVerdict
 	for _, b := range fn.Blocks {
 		for _, in := range b.Instrs {
@@ -309,6 +346,7 @@ func (a *errAnalyzer) analyse(s *errSite) errVerdict {
 	}
 	var results []result
 	var storedTo ssa.Value
+	fieldStored := false
 	paths := 0
 	var classes []string
 	sawClassifier := false
@@ -364,6 +402,12 @@ func (a *errAnalyzer) analyse(s *errSite) errVerdict {
 						paths++
 						results = append(results, result{"stored", x.Pos(), ""})
 						state = 2
+					} else if fa, isField := x.Addr.(*ssa.FieldAddr); isField && isErrorType(fa.Type().(*types.Pointer).Elem()) {
+						// recorded in an error-typed field of an object for later delivery (e.g. the sort adaptor's firstErr)
+						paths++
+						results = append(results, result{"free", x.Pos(), ""})
+						fieldStored = true
+						state = 2
 					}
 				}
 			case *ssa.Jump:
@@ -399,6 +443,14 @@ func (a *errAnalyzer) analyse(s *errSite) errVerdict {
 								fState = 1
 							}
 						}
+					}
+				}
+				if okVals[env.resolve(cond)] || okVals[cond] {
+					// found flag: on the "not found" edge the error is nil by the protocol
+					if neg {
+						tState = 2
+					} else {
+						fState = 2
 					}
 				}
 				if call, ok := cond.(*ssa.Call); ok && a.isException != nil {
@@ -484,6 +536,8 @@ func (a *errAnalyzer) analyse(s *errSite) errVerdict {
 		v.detail = fmt.Sprintf("classified with IsException(%s, err); every other non-nil error is returned", strings.Join(v.classes, "/"))
 	case nRet > 0:
 		v.kind, v.detail, v.pos = "propagated", "returned on every path where it can be non-nil", s.pos
+	case fieldStored:
+		v.kind, v.detail, v.pos = "propagated", "recorded in an error field of the adaptor object for delivery by its owner", s.pos
 	default:
 		v.kind, v.detail, v.pos = "dropped", "never returned", s.pos
 	}
